@@ -90,14 +90,16 @@ arctan_def = _arc_def(ATAN, ATANZ, lambda x: np('arctan')(x[0]), lambda x: 1 + x
 PW = F('pw', R, R, R)
 def powr_def(c, x, r, n):
     # x * theta(y) = r * y * theta(x):  n x0 y[n] = r sum_{k=1}^{n} k x[k] y[n-k] - sum_{k=1}^{n-1} k y[k] x[n-k]
-    return [z3.Implies(n >= 1, toR(n) * x[0] * POWR(x, r, n) == r * c.Sum(z3.IntVal(1), n, lambda k: toR(k) * x[k] * POWR(x, r, n - k))
-                       - c.Sum(z3.IntVal(1), n - 1, lambda k: toR(k) * POWR(x, r, k) * x[n - k])),
+    # (solved for the n-th coefficient; x[0] != 0 and n >= 1 are in force wherever this is used)
+    return [z3.Implies(n >= 1, POWR(x, r, n) == (r * c.Sum(z3.IntVal(1), n, lambda k: toR(k) * x[k] * POWR(x, r, n - k))
+                       - c.Sum(z3.IntVal(1), n - 1, lambda k: toR(k) * POWR(x, r, k) * x[n - k])) / x[0] / toR(n)),
             POWR(x, r, 0) == PW(x[0], r)]
 
 def pown_def(c, x, m, n):
-    # POWN(x,0,.) = 1 ; POWN(x,m+1,n) = sum_k x[k] POWN(x,m,n-k)
+    # repeated Cauchy product:  x^(*0) = 1 ;  x^(*1) = x ;  x^(*m) = x (*) x^(*(m-1)) for m >= 2
     return [z3.Implies(m == 0, POWN(x, m, n) == z3.If(n == 0, z3.RealVal(1), z3.RealVal(0))),
-            z3.Implies(m >= 1, POWN(x, m, n) == c.Sum(z3.IntVal(0), n, lambda k: x[k] * POWN(x, m - 1, n - k)))]
+            z3.Implies(m == 1, POWN(x, m, n) == x[n]),
+            z3.Implies(m >= 2, POWN(x, m, n) == c.Sum(z3.IntVal(0), n, lambda k: x[k] * POWN(x, m - 1, n - k)))]
 
 def bfwf_def(c, x, fp, f0, n):
     return [z3.Implies(n >= 1, toR(n) * BFWF(x, fp, f0, n) == c.Sum(z3.IntVal(1), n, lambda k: toR(k) * x[k] * fp[n - k])),
